@@ -316,7 +316,7 @@ UNITS = [{
                         && heap_deref(old(vm).heap_spec(), tail_ptr(old(vm).heap_spec(), arg(*old(vm), 2), i as nat)) is Pair
                         && (heap_deref(old(vm).heap_spec(), arg(*old(vm), 2)) is Pair || heap_deref(old(vm).heap_spec(), arg(*old(vm), 2)) is Nil))) ==> r is Ok'''),
             ],
-            'inserts': [{'anchor': 'match vm.heap.get(&tail) {', 'where': 'before', 'text': 'proof { axiom_cow_cell_ref(&tail); axiom_cow_cell_ref(&list_ptr); }'}],
+            'inserts': [{'anchor': ['let tail = get_list_tail(vm, &list_ptr, idx)?;', 'get_list_tail(vm, &list_ptr, idx)?;'], 'where': 'after', 'text': 'proof { axiom_cow_cell_ref(&tail); axiom_cow_cell_ref(&list_ptr); }'}],
         },
         '::list_tail': {
             'props': L, 'requires': REQ,
